@@ -111,7 +111,7 @@ func EstablishPDU(sst int32, sd string, ue *tglib.RanUeContext, conn *sctp.SCTPC
 	_, err = conn.Write(sendMsg)
 	ManageError("Error establishing PDU", err)
 
-	tglib.VerifEmit(map[string]interface{}{"ev": "EstablishPDU", "supi": ue.Supi, "ip": []byte(clientip), "teid": teid, "upf": []byte(upfip)})
+	tglib.VerifEmit(map[string]interface{}{"ev": "EstablishPDU", "supi": ue.Supi, "ip": tglib.VerifInts(clientip), "teid": tglib.VerifInts([]byte{byte(teid >> 24), byte(teid >> 16), byte(teid >> 8), byte(teid)}), "upf": tglib.VerifInts(upfip)})
 	return clientip, teid, upfip
 }
 
